@@ -1,4 +1,4 @@
-from . import cycle, sidecar, proxy, store
+from . import cycle, sidecar, proxy, store, k8s
 CHECKS = {}
 for p in cycle.PROPS:
     CHECKS[p] = cycle.check
@@ -7,3 +7,4 @@ CHECKS['C14'] = sidecar.check
 CHECKS['C12'] = proxy.check
 CHECKS['C13'] = proxy.check
 CHECKS['C09'] = store.check
+CHECKS['C18'] = k8s.check
